@@ -29,7 +29,8 @@ def _eval_job(job):
         mod = importlib.import_module(f'pjx.props.{p.lower()}')
         try:
             ck = Check(p, 'quick')
-            mod.run(ck, mp)
+            from .props import run_check
+            run_check(mod, ck, mp)
             out[p] = [(f.rule, f.func, f.construct, f.message) for f in ck.findings]
         except AnalysisError as e:
             out[p] = f'ANALYSIS-ERROR: {e}'
@@ -141,7 +142,8 @@ def run_seeded(prop: str, prog: Program, baseline: Optional[Check] = None) -> Di
     mod = importlib.import_module(f'pjx.props.{prop.lower()}')
     if baseline is None:
         baseline = Check(prop, 'quick')
-        mod.run(baseline, prog)
+        from .props import run_check
+        run_check(mod, baseline, prog)
     base_keys = {f.key for f in baseline.findings}
     res: Dict[str, Any] = {'seeded': 0, 'reported': {}, 'not_reported': [], 'not_applicable': []}
     if not os.path.isdir(base_dir):
@@ -177,7 +179,8 @@ def run_battery(prop: str, prog: Program, baseline: Optional[Check] = None) -> D
     mutants: List[Dict[str, Any]] = getattr(mod, 'MUTANTS', [])
     if baseline is None:
         baseline = Check(prop, 'quick')
-        mod.run(baseline, prog)
+        from .props import run_check
+        run_check(mod, baseline, prog)
     base_keys = {f.key for f in baseline.findings}
     res: Dict[str, Any] = {'mutants': len(mutants), 'detected': [], 'missed': [], 'skipped': [], 'details': {}}
     todo, jobs = [], []
